@@ -336,12 +336,14 @@ func (ri *RouteInformation) unmarshal(b []byte) error {
 	}
 
 	// Unpack preference (with adjacent reserved bits) and lifetime values.
-	ri.PrefixLength = pl
-	ri.RouteLifetime = time.Duration(binary.BigEndian.Uint32(b[4:8])) * time.Second
-	ri.Preference = Preference((b[3] & 0x18) >> 3)
-	if err := checkPreference(ri.Preference); err != nil {
+	// (an option with the reserved preference value must be ignored, RFC 4191 2.3: validate before storing anything)
+	preference := Preference((b[3] & 0x18) >> 3)
+	if err := checkPreference(preference); err != nil {
 		return err
 	}
+	ri.PrefixLength = pl
+	ri.RouteLifetime = time.Duration(binary.BigEndian.Uint32(b[4:8])) * time.Second
+	ri.Preference = preference
 	ri.Prefix = CopyBytes(b[8 : 8+(pl/8)]) // copy bytes up to prefix len bits
 
 	return nil
